@@ -1434,11 +1434,11 @@ def shownList (level : Int) (attrs : Attrs) (names : List String) : Attrs :=
   names.filterMap (fun n => if attrShown level n (attrs.get n) then some (n, attrs.get n) else none)
 
 /-- the printed text of the attribute lines for `names` (level > 0) -/
-def attrsText (pre : Str) (level width : Int) (attrs : Attrs) : List String → Str
+def attrsTextRT (pre : Str) (level width : Int) (attrs : Attrs) : List String → Str
   | [] => []
   | n :: ns =>
     (if attrShown level n (attrs.get n) then attrLineText pre width n (attrs.get n) else []) ++
-      attrsText pre level width attrs ns
+      attrsTextRT pre level width attrs ns
 
 /-- every attribute printed at `level` among `names` satisfies `attrOK` -/
 def attrsOKList (isDef : Bool) (pre : Str) (level width : Int) (attrs : Attrs) (names : List String) : Bool :=
@@ -1451,10 +1451,10 @@ theorem shownList_cons_art (level : Int) (attrs : Attrs) (n : String) (ns : List
   rw [List.filterMap_cons]
   split <;> simp_all
 
-/-- the printer on the attribute block: `attrAll` yields the lines of `attrsText` -/
+/-- the printer on the attribute block: `attrAll` yields the lines of `attrsTextRT` -/
 theorem attrAll_text_art (isDef : Bool) (pre : Str) (hb : Blank pre) (level width : Int) (attrs : Attrs) :
     ∀ (ns : List String), attrsOKList isDef pre level width attrs ns = true →
-      ∃ ls, attrAll attrs pre level width ns = .ok ls ∧ unlines ls = attrsText pre level width attrs ns ∧
+      ∃ ls, attrAll attrs pre level width ns = .ok ls ∧ unlines ls = attrsTextRT pre level width attrs ns ∧
         (ls.isEmpty = (shownList level attrs ns).isEmpty) := by
   intro ns
   induction ns with
@@ -1474,7 +1474,7 @@ theorem attrAll_text_art (isDef : Bool) (pre : Str) (hb : Blank pre) (level widt
         simp [unlines, attrLineText] at t1
       refine ⟨ls1 ++ ls2, ?_, ?_, ?_⟩
       · simp only [attrAll, attrOne, hsh, ↓reduceIte, e1, e2]
-      · rw [unlines_append, t1, t2, attrsText, if_pos hsh]
+      · rw [unlines_append, t1, t2, attrsTextRT, if_pos hsh]
       · rw [shownList_cons_art, if_pos hsh]
         cases ls1 with
         | nil => exact absurd rfl hne
@@ -1482,7 +1482,7 @@ theorem attrAll_text_art (isDef : Bool) (pre : Str) (hb : Blank pre) (level widt
     · have hsh' : attrShown level n (attrs.get n) = false := by simpa using hsh
       refine ⟨ls2, ?_, ?_, ?_⟩
       · simp only [attrAll, attrOne, hsh', Bool.false_eq_true, ↓reduceIte, e2, List.nil_append]
-      · rw [t2, attrsText, if_neg hsh, List.nil_append]
+      · rw [t2, attrsTextRT, if_neg hsh, List.nil_append]
       · rw [shownList_cons_art, if_neg hsh, List.nil_append]; exact m2
 
 theorem Blank_deeper2_art {pre : Str} (hb : Blank pre) : ∀ d ∈ pre ++ [' ', ' '], isSpace d = true :=
@@ -1512,16 +1512,16 @@ theorem attrLineText_shape_art (pre : Str) (width : Int) (n : String) (v : AttrV
 /-- the text after an attribute line does not continue its value -/
 theorem NextOK_attrsText_art (pre : Str) (hb : Blank pre) (level width : Int) (attrs : Attrs)
     (tail : Str) (ht : NextOK tail) :
-    ∀ ns, NextOK (attrsText pre level width attrs ns ++ tail) := by
+    ∀ ns, NextOK (attrsTextRT pre level width attrs ns ++ tail) := by
   intro ns
   induction ns with
   | nil => exact ht
   | cons n ns ih =>
-    rw [attrsText]
+    rw [attrsTextRT]
     split
     · rw [attrLineText_shape_art]
       have := NextOK_dot_art (pre ++ [' ', ' ']) (n.toList ++ ' ' :: '=' ::
-        (attrTail pre width n (attrs.get n) ++ ['\n']) ++ (attrsText pre level width attrs ns ++ tail))
+        (attrTail pre width n (attrs.get n) ++ ['\n']) ++ (attrsTextRT pre level width attrs ns ++ tail))
         (Blank_deeper2_art hb)
       simpa using this
     · exact ih
@@ -1552,7 +1552,7 @@ theorem defn_attrs_block_art (pre : Str) (hb : Blank pre) (level width : Int) (a
         (d : Obj), NextOK more →
         ∃ l' prevLine',
           collectObjects (fuel + shownCount level attrs ns)
-              { ci := ⟨'\n' :: (attrsText pre level width attrs ns ++ more), l⟩, nextId := i } stop prevLine
+              { ci := ⟨'\n' :: (attrsTextRT pre level width attrs ns ++ more), l⟩, nextId := i } stop prevLine
               acc (some d)
             = collectObjects fuel { ci := ⟨'\n' :: more, l'⟩, nextId := i } stop prevLine' acc
                 (some (d.withMeta (fun m => { m with attrs := m.attrs ++ shownList level attrs ns }))) := by
@@ -1561,7 +1561,7 @@ theorem defn_attrs_block_art (pre : Str) (hb : Blank pre) (level width : Int) (a
   | nil =>
     intro _ _ fuel more l i stop prevLine acc d _
     refine ⟨l, prevLine, ?_⟩
-    simp only [shownCount, shownList, List.filterMap_nil, List.length_nil, Nat.add_zero, attrsText,
+    simp only [shownCount, shownList, List.filterMap_nil, List.length_nil, Nat.add_zero, attrsTextRT,
       List.nil_append]
     rw [withMeta_attrs_nil_art]
   | cons n ns ih =>
@@ -1583,22 +1583,22 @@ theorem defn_attrs_block_art (pre : Str) (hb : Blank pre) (level width : Int) (a
         · exact Blank_deeper2_art hb c hc
       obtain ⟨l1, hstep⟩ := collectObjects_defn_attr_art (fuel + shownCount level attrs ns) stop prevLine acc
         d ('\n' :: (pre ++ [' ', ' '])) n (attrTail pre width n (attrs.get n))
-        (attrsText pre level width attrs ns ++ more) l i (attrs.get n) hsp (hmem n (by simp)) hreads hrest
+        (attrsTextRT pre level width attrs ns ++ more) l i (attrs.get n) hsp (hmem n (by simp)) hreads hrest
       obtain ⟨l', prevLine', hrec⟩ := ih hmem' hok'.2 fuel more l1 i stop
         (l + nlCount ('\n' :: (pre ++ [' ', ' ']))) acc
         (d.withMeta (fun m => { m with attrs := m.attrs ++ [(n, attrs.get n)] })) hnext
       refine ⟨l', prevLine', ?_⟩
       have hfuel : fuel + shownCount level attrs (n :: ns) = fuel + shownCount level attrs ns + 1 := by
         rw [shownCount_cons_art, if_pos hsh]; omega
-      have htext : '\n' :: (attrsText pre level width attrs (n :: ns) ++ more)
+      have htext : '\n' :: (attrsTextRT pre level width attrs (n :: ns) ++ more)
           = ('\n' :: (pre ++ [' ', ' '])) ++ '.' :: n.toList ++ ' ' :: '=' ::
-              (attrTail pre width n (attrs.get n) ++ '\n' :: (attrsText pre level width attrs ns ++ more)) := by
-        rw [attrsText, if_pos hsh, attrLineText_shape_art]
+              (attrTail pre width n (attrs.get n) ++ '\n' :: (attrsTextRT pre level width attrs ns ++ more)) := by
+        rw [attrsTextRT, if_pos hsh, attrLineText_shape_art]
         simp
       rw [hfuel, htext, hstep, hrec, withMeta_attrs_append_art, shownList_cons_art, if_pos hsh]
     · obtain ⟨l', prevLine', hrec⟩ := ih hmem' hok'.2 fuel more l i stop prevLine acc d hnext
       refine ⟨l', prevLine', ?_⟩
-      rw [shownCount_cons_art, if_neg hsh, Nat.zero_add, attrsText, if_neg hsh, List.nil_append, hrec,
+      rw [shownCount_cons_art, if_neg hsh, Nat.zero_add, attrsTextRT, if_neg hsh, List.nil_append, hrec,
         shownList_cons_art, if_neg hsh, List.nil_append]
 
 
@@ -1623,12 +1623,12 @@ theorem scopeAttrsLoop_step_art (fuel : Nat) (ci : CI) (w : Word) (as : Attrs) (
   | ok p => rfl
 
 theorem shownCount_le_text_art (pre : Str) (level width : Int) (attrs : Attrs) :
-    ∀ ns, shownCount level attrs ns ≤ (attrsText pre level width attrs ns).length := by
+    ∀ ns, shownCount level attrs ns ≤ (attrsTextRT pre level width attrs ns).length := by
   intro ns
   induction ns with
   | nil => simp [shownCount, shownList]
   | cons n ns ih =>
-    rw [shownCount_cons_art, attrsText, List.length_append]
+    rw [shownCount_cons_art, attrsTextRT, List.length_append]
     split
     · simp only [attrLineText, List.length_append, List.length_cons, List.length_nil]; omega
     · simp; exact ih
@@ -1641,7 +1641,7 @@ theorem scope_attrs_block_art (pre pre' V : Str) (hb : Blank pre) (hb' : Blank p
       attrsOKList false pre level width attrs ns = true →
       ∀ (sp : Str) (l : Nat), (∀ c ∈ sp, isSpace c = true) →
         ∃ w ci2 l',
-          nextWord structSettings ⟨sp ++ attrsText pre level width attrs ns ++ pre' ++ '{' :: V, l⟩
+          nextWord structSettings ⟨sp ++ attrsTextRT pre level width attrs ns ++ pre' ++ '{' :: V, l⟩
             = .ok (some (w, ci2)) ∧
           w.quote = none ∧ (w.value = ['{'] ∨ w.value.take 1 = ['.']) ∧
           shownCount level attrs ns ≤ ci2.rest.length + 1 ∧
@@ -1661,7 +1661,7 @@ theorem scope_attrs_block_art (pre pre' V : Str) (hb : Blank pre) (hb' : Blank p
     refine ⟨{ value := ['{'], quote := none, line := some (l + nlCount (sp ++ pre')) },
       ⟨V, l + nlCount (sp ++ pre')⟩, l + nlCount (sp ++ pre'), ?_, rfl, Or.inl rfl,
       by simp [shownCount, shownList], ?_⟩
-    · simp only [attrsText, List.append_nil]
+    · simp only [attrsTextRT, List.append_nil]
       exact nextWord_struct_open (sp ++ pre') V l hsp'
     · intro fuel as hf
       obtain ⟨f, rfl⟩ : ∃ f, fuel = f + 1 := ⟨fuel - 1, by omega⟩
@@ -1683,15 +1683,15 @@ theorem scope_attrs_block_art (pre pre' V : Str) (hb : Blank pre) (hb' : Blank p
         rcases List.mem_append.mp hc with h | h
         · exact hsp c h
         · exact Blank_deeper2_art hb c h
-      let rest := attrsText pre level width attrs ns ++ pre' ++ '{' :: V
+      let rest := attrsTextRT pre level width attrs ns ++ pre' ++ '{' :: V
       have hrest : NextOK rest := by
         have := NextOK_attrsText_art pre hb level width attrs (pre' ++ '{' :: V)
           (NextOK_open_art pre' V hb'.isSpace) ns
         simpa [rest, List.append_assoc] using this
-      have htext : sp ++ attrsText pre level width attrs (n :: ns) ++ pre' ++ '{' :: V
+      have htext : sp ++ attrsTextRT pre level width attrs (n :: ns) ++ pre' ++ '{' :: V
           = (sp ++ (pre ++ [' ', ' '])) ++ '.' :: n.toList ++ ' ' :: ('=' ::
               (attrTail pre width n (attrs.get n) ++ '\n' :: rest)) := by
-        rw [attrsText, if_pos hsh, attrLineText_shape_art]
+        rw [attrsTextRT, if_pos hsh, attrLineText_shape_art]
         simp [rest]
       have h1 := nextWord_attr_name_art (sp ++ (pre ++ [' ', ' ']))
         ('=' :: (attrTail pre width n (attrs.get n) ++ '\n' :: rest)) n l hsp2 hnameok
@@ -1714,7 +1714,7 @@ theorem scope_attrs_block_art (pre pre' V : Str) (hb : Blank pre) (hb' : Blank p
         rw [shownCount_cons_art, if_pos hsh] at hf
         obtain ⟨f, rfl⟩ : ∃ f, fuel = f + 1 := ⟨fuel - 1, by omega⟩
         have hpop : popUnquoted structSettings ⟨'\n' :: rest, l1⟩ = .ok (w', ci3) := by
-          have : (['\n'] ++ attrsText pre level width attrs ns ++ pre' ++ '{' :: V) = '\n' :: rest := by
+          have : (['\n'] ++ attrsTextRT pre level width attrs ns ++ pre' ++ '{' :: V) = '\n' :: rest := by
             simp [rest]
           rw [this] at hn'
           exact popUnquoted_of_next hn' hq'
@@ -1728,7 +1728,7 @@ theorem scope_attrs_block_art (pre pre' V : Str) (hb : Blank pre) (hb' : Blank p
         simp
     · obtain ⟨w, ci2, l', h1, h2, h3, h4, h5⟩ := ih hmem' hok'.2 sp l hsp
       refine ⟨w, ci2, l', ?_, h2, h3, ?_, ?_⟩
-      · rw [attrsText, if_neg hsh, List.nil_append]; exact h1
+      · rw [attrsTextRT, if_neg hsh, List.nil_append]; exact h1
       · rw [shownCount_cons_art, if_neg hsh, Nat.zero_add]; exact h4
       · intro fuel as hf
         rw [shownCount_cons_art, if_neg hsh, Nat.zero_add] at hf
@@ -1739,7 +1739,7 @@ theorem scope_attrs_block_art (pre pre' V : Str) (hb : Blank pre) (hb' : Blank p
 
 /-- the printed attribute block of an object at `level` -/
 def attrBlock (isDef : Bool) (pre : Str) (level width : Int) (attrs : Attrs) : Str :=
-  if level ≤ 0 then [] else attrsText pre level width attrs (attrNamesOf isDef)
+  if level ≤ 0 then [] else attrsTextRT pre level width attrs (attrNamesOf isDef)
 
 /-- **the attributes the parser reads back** from the text printed at `level`: the attributes shown at
     that level, in printing order, each with its value -/
@@ -2334,12 +2334,12 @@ theorem collectObjects_open_scopeA_art (fuel : Nat) (stop : Option Word) (prevLi
       ∃ (d : Char) (sp : Str) (ns : List String) (pre' : Str), isSpace d = true ∧
         (∀ c ∈ d :: sp, isSpace c = true) ∧ Blank pre' ∧
         (∀ n ∈ ns, n ∈ scopeAttrNames) ∧ attrsOKList false ind L w attrs ns = true ∧
-        headTail ind L w attrs V = (d :: sp) ++ attrsText ind L w attrs ns ++ pre' ++ '{' :: V ∧
+        headTail ind L w attrs V = (d :: sp) ++ attrsTextRT ind L w attrs ns ++ pre' ++ '{' :: V ∧
         shownAttrs false L attrs = shownList L attrs ns := by
     unfold headTail
     by_cases hemp : (shownAttrs false L attrs).isEmpty = true
     · refine ⟨' ', [], [], [], rfl, space_blank, hblank0, by simp, rfl, ?_, ?_⟩
-      · simp [hemp, attrsText]
+      · simp [hemp, attrsTextRT]
       · have : shownAttrs false L attrs = [] := by simpa using hemp
         rw [this]; rfl
     · have hl : ¬ L ≤ 0 := by
@@ -2350,14 +2350,14 @@ theorem collectObjects_open_scopeA_art (fuel : Nat) (stop : Option Word) (prevLi
       · simp [shownAttrs, hl]
   obtain ⟨w0, ci2, l', h2, hq, hv, hbound, hloop⟩ :=
     scope_attrs_block_art ind pre' V hb hb' L w attrs ns hmem hokl (d :: sp) (l + nlCount pre) hsp
-  have h1 := nextWord_struct_name_sp_art pre nm (sp ++ attrsText ind L w attrs ns ++ pre' ++ '{' :: V) d l hpre hd hn
+  have h1 := nextWord_struct_name_sp_art pre nm (sp ++ attrsTextRT ind L w attrs ns ++ pre' ++ '{' :: V) d l hpre hd hn
   have hci : (⟨pre ++ nm ++ headTail ind L w attrs V, l⟩ : CI)
-      = ⟨pre ++ nm ++ d :: (sp ++ attrsText ind L w attrs ns ++ pre' ++ '{' :: V), l⟩ := by
+      = ⟨pre ++ nm ++ d :: (sp ++ attrsTextRT ind L w attrs ns ++ pre' ++ '{' :: V), l⟩ := by
     rw [htext]; simp
   have h2' : nextWord structSettings
-      ⟨d :: (sp ++ attrsText ind L w attrs ns ++ pre' ++ '{' :: V), l + nlCount pre⟩ = .ok (some (w0, ci2)) := by
-    have : d :: (sp ++ attrsText ind L w attrs ns ++ pre' ++ '{' :: V)
-        = (d :: sp) ++ attrsText ind L w attrs ns ++ pre' ++ '{' :: V := by simp
+      ⟨d :: (sp ++ attrsTextRT ind L w attrs ns ++ pre' ++ '{' :: V), l + nlCount pre⟩ = .ok (some (w0, ci2)) := by
+    have : d :: (sp ++ attrsTextRT ind L w attrs ns ++ pre' ++ '{' :: V)
+        = (d :: sp) ++ attrsTextRT ind L w attrs ns ++ pre' ++ '{' :: V := by simp
     rw [this]; exact h2
   have hl := hloop (ci2.rest.length + 2) [] (by omega)
   refine ⟨l', l', ?_⟩
@@ -2819,7 +2819,7 @@ def SameShown (L : Int) (a b : Attrs) (ns : List String) : Prop :=
 
 theorem sameShown_lists_art (isDef : Bool) (pre : Str) (L w : Int) (a b : Attrs) :
     ∀ ns, SameShown L a b ns →
-      shownList L a ns = shownList L b ns ∧ attrsText pre L w a ns = attrsText pre L w b ns ∧
+      shownList L a ns = shownList L b ns ∧ attrsTextRT pre L w a ns = attrsTextRT pre L w b ns ∧
       attrsOKList isDef pre L w a ns = attrsOKList isDef pre L w b ns := by
   intro ns
   induction ns with
@@ -2832,13 +2832,13 @@ theorem sameShown_lists_art (isDef : Bool) (pre : Str) (L w : Int) (a b : Attrs)
     · have hv := h2 hs
       refine ⟨?_, ?_, ?_⟩
       · rw [shownList_cons_art, shownList_cons_art, h1, hv, i1]
-      · rw [attrsText, attrsText, h1, hv, i2]
+      · rw [attrsTextRT, attrsTextRT, h1, hv, i2]
       · simp only [attrsOKList, List.all_cons] at i3 ⊢
         rw [h1, hv, i3]
     · have hs' : attrShown L n (b.get n) = false := by simpa using hs
       refine ⟨?_, ?_, ?_⟩
       · rw [shownList_cons_art, shownList_cons_art, h1, hs', i1]; rfl
-      · rw [attrsText, attrsText, h1, hs', i2]; rfl
+      · rw [attrsTextRT, attrsTextRT, h1, hs', i2]; rfl
       · simp only [attrsOKList, List.all_cons] at i3 ⊢
         rw [h1, hs', i3]; rfl
 
